@@ -114,6 +114,7 @@ pub fn check_one(ctx: &mut Ctx, p: [f64; 6], sp: SpacePoint, t: f64, what: &str)
         dg.f64(qc.1);
         dg.f64(qc.2);
         ctx.nontrivial(dg.0);
+        ctx.observe_max(&format!("distance excess over the brute-force minimum, {} (m)", what), d - bd);
         if d - bd > 1e-9 {
             ctx.violation("interior t is not a closest-approach parameter", format!("{}: h={:e} R={} returned t={} at distance {:e}, but t'={} is at distance {:e} (closer by {:e} m)", what, p[5], p[3], t, d, bt, bd, d - bd), input);
         }
